@@ -26,6 +26,7 @@ DESIGN_REF = 'DESIGN.md §3 C06'
 def gen_ops(tier, rng):
     return gens.id_ops(tier, rng, with_children=True)
 
+@common.guarded(lambda **a: f"tree clauses for cell {a['c']}", lambda **a: {'op': 'cell', 'id': a['c']})
 def check_cell(drv, c, fails, deep=3):
     """C06 clauses for the valid id c on the real code"""
     ser, ci = drv.ser, drv.ci
